@@ -462,7 +462,85 @@ class Diff(Contract):
         raise U("diff as a callee", node)
 
 
+class Full(Contract):
+    """full(shape, fill_value, ...) / full_like(a, fill_value, ...): every coefficient column of the fill polynomial is
+    broadcast into the new array - no term skipped, none left unwritten (C12) - with its rows, names and the dtype rule."""
+    properties = ("C09", "C12", "C17")
+    assumptions = ("B2 (broadcasting every coefficient column broadcasts the polynomial)", "precondition: fill_value broadcasts to the shape")
+
+    def __init__(self, fname):
+        self.func, self.name = fname, f"numpoly.{fname}"
+        self.relpath = f"numpoly/array_function/{fname}.py"
+
+    def _loops(self):
+        def inv(ex, env, k):
+            out, F, S = env["out"], ex.F, ex.S
+            if not isinstance(out, Poly):
+                return [("output_allocated", z3.BoolVal(False))]
+            from engine.logic import proj
+            return [("columns_written_so_far", ex.ctx.forall_range(0, k, lambda t: ex.ctx.forall_idx(
+                lambda i: z3.And(out.init(t, i), out.C(t, i) == F.C(t, proj(i, S, F.shape))), S)))]
+
+        def havoc(ex, env, k):
+            out = env["out"]
+            cf, inf = ex.ctx.func("C_h", I, Idx, z3.RealSort()), ex.ctx.func("init_h", I, Idx, z3.BoolSort())
+            out._C = lambda t, i: cf(t, i)
+            out._init = lambda t, i: inf(t, i)
+        return {1: LoopSpec(inv, havoc, modifies=("key",))}
+
+    def cases(self):
+        variants = [("dtype_given", True), ("dtype_default", False)]
+        for label, dt_given in variants:
+            def make_env(ex, dt_given=dt_given):
+                from engine.logic import DT, bshape, bok
+                from engine.polymodel import ShapeV, DTypeV
+                ctx = ex.ctx
+                n_ops = 1 if self.func == "full" else 2
+                ps = sym_polys(ex, n_ops, broadcast=False)
+                F = ps[-1]
+                ex.F = F
+                ex.dt = ctx.const("dtype_arg", DT)
+                if self.func == "full":
+                    S = ctx.const("shape_arg", Shp)
+                    env = {"shape": ShapeV(S), "fill_value": F, "dtype": DTypeV(ex.dt) if dt_given else None, "order": "C"}
+                else:
+                    A = ps[0]
+                    ex.A = A
+                    S = A.shape
+                    env = {"a": A, "fill_value": F, "dtype": DTypeV(ex.dt) if dt_given else None, "order": "K", "subok": True, "shape": None}
+                ex.S = S
+                ctx.assume(z3.And(bok(F.shape, S), bshape(F.shape, S) == S))      # precondition: the fill value broadcasts into the shape
+                return env
+
+            def check(out, dt_given=dt_given):
+                from engine.logic import proj
+                ex, ctx = out.ex, out.ctx
+                F, S = ex.F, ex.S
+                ex.oblige(f"raises.nothing[{out.exc}:{out.value}]" if out.kind == "raise" else "raises.nothing", z3.BoolVal(out.kind == "return"), "post")
+                if out.kind != "return":
+                    return
+                r = out.value
+                ok = isinstance(r, Poly)
+                ex.oblige("post.polynomial", z3.BoolVal(ok), "post")
+                if not ok:
+                    return
+                ex.oblige("post.rows_and_names_of_the_fill_value", z3.And(r.N == F.N, r.D == F.D, r.names == F.names,
+                                                                         ctx.forall_range(0, F.N, lambda t: r.row(t) == F.row(t))), "post")
+                ex.oblige("post.shape", r.shape == S, "post")
+                want = ex.dt if dt_given else (F.dtype if self.func == "full" else ex.A.dtype)
+                ex.oblige("post.dtype", r.dtype == want, "post", note="requested dtype, else that of the fill value (full) / of the prototype (full_like)")
+                ex.oblige("post.every_column_is_the_broadcast_fill_column", ctx.forall_range(0, F.N, lambda t: ctx.forall_idx(
+                    lambda i: z3.And(r.init(t, i), r.C(t, i) == F.C(t, proj(i, S, F.shape))), S)), "post",
+                    note="no term skipped, none left unwritten (C12)")
+                ex.oblige("post.fresh", z3.BoolVal(r.region.owner == "fresh"), "post")
+            yield Case(label, make_env, check, loops=self._loops())
+
+    def apply(self, ex, args, kw, node):
+        raise U(f"{self.func} as a callee", node)
+
+
 CONTRACTS = [
+    Full("full"), Full("full_like"),
     Diff(),
     RawWrapper("reshape", ("shape", "order"), variants=[dict(label="shape", env={"newshape": None}),
                                                         dict(label="newshape", env={"shape": None, "newshape": "TOKEN"},
